@@ -385,6 +385,15 @@ func (a *analysis) syncOp(fr *frame, sts []*state, ce *ast.CallExpr, f *ast.Sele
 		case "Done":
 			st.release(class) // a Done on a path where the matching RepoGet failed is unreachable in the code; not judged here
 		case "Wait":
+			if sel, ok := f.X.(*ast.SelectorExpr); ok {
+				if ow := owners[typeName(info.TypeOf(sel.X))]; ow != nil {
+					for i := 0; i < ow.NumFields(); i++ {
+						if ow.Field(i).Name() == "wgBlock" {
+							a.recordWait(fr, st, "wgWait", class, ce.Pos())
+						}
+					}
+				}
+			}
 			a.acquire(fr, st, class, ce.Pos(), false)
 		default:
 			a.unrecognised(ce.Pos(), "sync operation "+op)
